@@ -5,8 +5,8 @@ import vlib
 CFG = {
     # prop: tier: (bfs cfg, keep-every-nth transition trace, sim traces, sim depth)
     "C01": {"quick": ("MC_TxStore_c01_quick.cfg", 1, 300), "thorough": ("MC_TxStore_c01_thorough.cfg", 1, 3000)},
-    "C02": {"quick": ("MC_TxStore_c01_quick.cfg", 1, 300), "thorough": ("MC_TxStore_c01_thorough.cfg", 1, 3000)},
-    "C13": {"quick": ("MC_TxStore_c01_quick.cfg", 1, 300), "thorough": ("MC_TxStore_c01_thorough.cfg", 1, 3000)},
+    "C02": {"quick": ("MC_TxStore_path_quick.cfg", 1, 300), "thorough": ("MC_TxStore_path_thorough.cfg", 1, 3000)},
+    "C13": {"quick": ("MC_TxStore_path_quick.cfg", 1, 300), "thorough": ("MC_TxStore_path_thorough.cfg", 1, 3000)},
     "C12": {"quick": ("MC_TxStore_c12_quick.cfg", 1, 300), "thorough": ("MC_TxStore_c12_thorough.cfg", 1, 3000)},
 }
 LEVEL = "model_checking"
@@ -23,6 +23,9 @@ def run(prop, tier, seed, scratch, replay=None):
     if replay:
         with open(replay) as f:
             m = json.load(f)
+        if m.get("sig", "").startswith("chainsync:"):
+            from checks import chainsync
+            return chainsync.run(prop, tier, seed, scratch, replay)
         with open(traces, "w") as f:
             f.write(json.dumps(m["behaviour"]) + "\n")
         # graphs come from a minimal TLC run
@@ -58,6 +61,20 @@ def run(prop, tier, seed, scratch, replay=None):
                           "-workers", vlib.NCPU], timeout=7200)
     rep = vlib.load_report(report)
     res.add_report(rep)
+    wl = None
+    if prop == "C02":
+        # wallet-level pass: the same reorg semantics seen through wallet.disconnectBlock / syncWithChain
+        # (spec/ChainSync.tla behaviours on a real wallet + scripted backend; C02 owns the transaction status)
+        wdrv = vlib.build_driver(scratch, "replay-wallet")
+        wtr = scratch.path("cs.ndjson")
+        cs = vlib.run_tlc(scratch, "ChainSync.tla", "MC_ChainSync_%s.cfg" % tier, out_traces=wtr, tag="cs", timeout=1800)
+        vlib.require_tlc_ok(cs, "ChainSync exploration (wallet-level pass)")
+        wrep = scratch.path("cs-report.json")
+        every = 120 if tier == "quick" else 20
+        vlib.run_driver(wdrv, ["-in", wtr, "-out", wrep, "-spec", "chainsync", "-prop", "C02", "-seed", seed,
+                               "-every", every, "-offset", seed % every, "-workers", vlib.NCPU], timeout=3600)
+        wl = vlib.load_report(wrep)
+        res.add_report(wl)
     if rep["traces"] != bfs["ntraces"] + sim["ntraces"]:
         res.errors.append("driver replayed %d of %d behaviours" % (rep["traces"], bfs["ntraces"] + sim["ntraces"]))
     res.coverage = {
@@ -76,6 +93,10 @@ def run(prop, tier, seed, scratch, replay=None):
     }
     if cov:
         res.coverage["coverage_run"] = cov
+    if wl:
+        res.coverage["wallet_level_pass"] = {"behaviours_replayed": wl["traces"], "comparisons": wl["checks"],
+                                              "distinct_nontrivial": wl["distinct_nontrivial"]}
+        res.coverage["traces_validated_against_impl"] += wl["traces"]
     res.assumptions = [
         "transactions are delivered the way wallet.addRelevantTx does (InsertTxCheckIfExists, then AddCredit for own outputs unless the record existed)",
         "histories are chain-consistent by construction (enabling conditions of spec/TxStore.tla)",
